@@ -159,6 +159,14 @@ def _fresh(ctx, ref):
     return C.dec(ref)
 
 
+def _unjudged(rec, res):
+    """the model has no expectation for this input (malformed description, unknown format, negative magnitude):
+    C17 speaks about what well-formed descriptions load into, not about what must be rejected (that is C19)"""
+    if not isinstance(res, BaseException):
+        rec["discarded"] = "malformed-input-accepted-unjudged"
+    return None
+
+
 def _viol(kind, detail):
     return ["violation", kind, str(detail)[:300]]
 
@@ -176,9 +184,7 @@ def model_load_network(ctx, a, res, rec):
         if len(set(ids)) != len(ids) or (exp and "0" not in labels):
             raise ModelRaises("network constraints")
     except (ModelRaises, KeyError, TypeError):
-        if isinstance(res, BaseException):
-            return None
-        return _viol("accepted-malformed", "model rejects this description but the loader returned a network")
+        return _unjudged(rec, res)
     if isinstance(res, BaseException):
         return _viol("load-failed", f"well-formed description raised {type(res).__name__}")
     if len(res.branches) != len(exp):
@@ -204,7 +210,7 @@ def model_to_complex(ctx, a, res, rec):
     try:
         exp = m_complex(z, a.get("degree", False))
     except (ModelRaises, KeyError, TypeError):
-        return None if isinstance(res, BaseException) else _viol("accepted-malformed", f"to_complex({z}) returned {res!r}")
+        return _unjudged(rec, res)
     if isinstance(res, BaseException):
         return _viol("load-failed", f"to_complex({z}, degree={a.get('degree', False)}) raised {type(res).__name__}")
     if not _close(res, exp):
@@ -249,7 +255,7 @@ def model_gen_component(ctx, a, res, rec):
     try:
         exp = _model_component(e)
     except ModelRaises:
-        return None if isinstance(res, BaseException) else _viol("accepted-malformed", "component accepted although the model rejects it")
+        return _unjudged(rec, res)
     if isinstance(res, BaseException):
         if type(res).__name__ == "ValueError":      # constructors reject negative R/G/w by contract
             return None
@@ -271,7 +277,7 @@ def model_undictify_circuit(ctx, a, res, rec):
         if len(set(ids)) != len(ids):
             raise ModelRaises("duplicate ids")
     except (ModelRaises, KeyError, TypeError):
-        return None if isinstance(res, BaseException) else _viol("accepted-malformed", "circuit accepted although the model rejects it")
+        return _unjudged(rec, res)
     if isinstance(res, BaseException):
         if type(res).__name__ in ("ValueError", "MultipleGroundNodes"):
             return None
@@ -319,7 +325,7 @@ def model_undictify_all(ctx, a, res, rec):
     try:
         exp = m_undictify(doc)
     except ModelRaises:
-        return None if isinstance(res, BaseException) else _viol("accepted-malformed", "negative abs accepted")
+        return _unjudged(rec, res)
     if isinstance(res, BaseException):
         return _viol("load-failed", f"undictify of a well-formed document raised {type(res).__name__}")
     d = _same_doc(res, exp)
@@ -347,7 +353,7 @@ def model_undictify_flat(ctx, a, res, rec):
     try:
         exp = {k: (m_undictify(v) if _is_note(v) else v) for k, v in doc.items()}
     except ModelRaises:
-        return None if isinstance(res, BaseException) else _viol("accepted-malformed", "negative abs accepted")
+        return _unjudged(rec, res)
     if isinstance(res, BaseException):
         return _viol("load-failed", f"undictify_complex_values of a well-formed dictionary raised {type(res).__name__}")
     d = _same_doc(res, exp)
@@ -392,7 +398,7 @@ def _set_doc_origin(ctx, rec, origin):
 def model_serialize(ctx, a, res, rec):
     _set_doc_origin(ctx, rec, _origin(ctx, a["doc"]))
     if a["fmt"] not in ("json", "yaml", "yml"):
-        return None if isinstance(res, BaseException) else _viol("accepted-malformed", "unknown format accepted")
+        return _unjudged(rec, res)
     if isinstance(res, BaseException):
         return _viol("serialize-failed", f"serialize(doc, {a['fmt']!r}) raised {type(res).__name__}")
     return None
@@ -410,7 +416,7 @@ def ld_serialize(ctx, a, seam):
 def model_deserialize(ctx, a, res, rec):
     """deserialize(serialize(doc, fmt), fmt) == doc ; for foreign texts: == model_undictify(parsed)"""
     if a["fmt"] not in ("json", "yaml", "yml"):
-        return None if isinstance(res, BaseException) else _viol("accepted-malformed", "unknown format accepted")
+        return _unjudged(rec, res)
     origin = a.get("expect") or (_origin(ctx, a["text"]) if isinstance(a["text"], dict) and "h" in a["text"] else None)
     _set_doc_origin(ctx, rec, origin)
     if origin is None:
@@ -419,7 +425,7 @@ def model_deserialize(ctx, a, res, rec):
     try:
         exp = m_undictify(doc)
     except ModelRaises:
-        return None if isinstance(res, BaseException) else _viol("accepted-malformed", "negative abs accepted")
+        return _unjudged(rec, res)
     if isinstance(res, BaseException):
         return _viol("roundtrip-failed", f"deserialize raised {type(res).__name__}")
     d = _same_doc(res, exp)
@@ -481,11 +487,11 @@ def model_load(ctx, a, res, rec):
     _set_doc_origin(ctx, rec, src["doc"])
     fmt = a["path"].rsplit(".", 1)[-1]
     if fmt not in ("json", "yaml", "yml"):
-        return None if isinstance(res, BaseException) else _viol("accepted-malformed", "unknown suffix accepted")
+        return _unjudged(rec, res)
     try:
         exp = m_undictify(_fresh(ctx, src["doc"]))
     except ModelRaises:
-        return None if isinstance(res, BaseException) else _viol("accepted-malformed", "negative abs accepted")
+        return _unjudged(rec, res)
     faulted = rec.get("io_fault", {}).get("fired") and rec["io_fault"]["kind"] in ("read-eio", "open-fail")
     if isinstance(res, BaseException):
         if faulted:
